@@ -208,9 +208,17 @@ func (c *Controller) HandleVisitor(m *msg.NatHoleVisitor, transporter transport.
 		delete(c.sessions, sid)
 	}()
 
+	// The proxy may be closed between the lookup above and this hand-over: then nobody receives
+	// any more (the channel is not closed either), so do not wait for ever.
+	delivered := false
 	if err := errors.PanicToError(func() {
-		clientCfg.sidCh <- sid
-	}); err != nil {
+		select {
+		case clientCfg.sidCh <- sid:
+			delivered = true
+		case <-time.After(time.Duration(NatHoleTimeout) * time.Second):
+		}
+	}); err != nil || !delivered {
+		log.Debugf("xtcp proxy [%s] is gone, sid [%s] not delivered", m.ProxyName, sid)
 		return
 	}
 
